@@ -218,6 +218,14 @@ def main():
             nf.append(mm[0])
         if len(re.findall(r"isnegative\(static_cast<double>\(value\)\)\) \{\s*sign = '-';", fh)) != 1:
             raise TranslateError("format.h: `sign = '-'` for negative values not found exactly once")
+        # capacity of the C API's AMPLOptions_C::options_ (nl-writer2/include/api/c/sol-handler-c.h) with MAX_AMPL_OPTIONS from nl-header-c.h
+        ch = open(os.path.join(repo, 'nl-writer2', 'include', 'api', 'c', 'sol-handler-c.h')).read()
+        nh = open(os.path.join(repo, 'nl-writer2', 'include', 'mp', 'nl-header-c.h')).read()
+        mx = re.findall(r'\bMAX_AMPL_OPTIONS\s*=\s*(\d+)', nh)
+        arr = re.findall(r'long options_\[\s*(MAX_AMPL_OPTIONS(?:\s*\+\s*\d+)?|\d+)\s*\];', ch)
+        if len(mx) != 1 or len(arr) != 1:
+            raise TranslateError('C API: MAX_AMPL_OPTIONS / `long options_[...]` of AMPLOptions_C not found exactly once')
+        capacity = eval(arr[0].replace('MAX_AMPL_OPTIONS', mx[0]), {'__builtins__': {}})
     except TranslateError as e:
         print('TRANSLATE-ERROR gen_solguards: %s' % e)
         sys.exit(3)
@@ -236,6 +244,8 @@ def main():
     lean.append('def writer_kind_order : List String := [%s]' % ', '.join(json.dumps(x) for x in kinds))
     lean.append("/-- fmt's spellings of non-finite doubles (include/mp/format.h, write_double), each also printed with a leading `-` -/")
     lean.append('def fmt_nonfinite : List String := [%s]' % ', '.join(json.dumps(x) for x in nf))
+    lean.append('/-- number of `long`s in the C API struct `AMPLOptions_C::options_` (sol-handler-c.h) -/')
+    lean.append('def c_api_options_capacity : Nat := %d' % capacity)
     lean.append('\nend MpVerif.Gen.SolGuards\n')
     text = '\n'.join(lean)
     if not os.path.exists(out) or open(out).read() != text:
